@@ -70,6 +70,7 @@ LEDGER = {
     "C11": dict(profile="mixed", flags=["-alloc", "-adversarial", "75"], preds=["P11_Shape", "P11_ShapeVerdict", "P11_Alloc"],
                 mc=([M("ESDTTransfer,ESDTNFTTransfer,MultiESDTNFTTransfer,create", rejected=True, hs=("u0a", "u1a")), M("mintburn,metaops,create", rejected=True, hs=("u0a",)), M("kv,flags", rejected=True, hs=("u0a",)), M("acct,handover", rejected=True, hs=("u0a", "u1a"))],
                     [M("ESDTTransfer,ESDTNFTTransfer,MultiESDTNFTTransfer,create", rejected=True), M("mintburn,metaops,create,flags", rejected=True, hs=("u0a", "u1a")), M("kv,flags,acct,handover,roles", rejected=True, hs=("u0a", "u1a"))]),
+                extra_runs=[("gas", ["-gassweep", "-alloc"], 0.5)],
                 need=dict(shapebad=100, steps=1000, gas_max=20)),
     "C13": dict(profile="mixed", flags=["-triple"], preds=["P13_Replicas", "P13_InputIntact"],
                 mc=([M("ESDTTransfer,issue,ESDTNFTTransfer,create")], [M("ESDTTransfer,issue,ESDTNFTTransfer,MultiESDTNFTTransfer,create,mintburn")]),
@@ -223,9 +224,13 @@ def run_ledger(run):
     total = dict(lines=0, drift=0, counters={})
     chunks = 1 if run.tier == "quick" else 8
     ntr = max(2, int(sz["traces"] * scale) // chunks)
-    for ch in range(chunks):
+    plan = [(spec["profile"], spec.get("flags", []), ntr)] * chunks
+    # further driver modes whose traces are validated against the same predicates
+    for prof, flags, frac in spec.get("extra_runs", []):
+        plan.append((prof, flags, max(2, int(ntr * frac))))
+    for ch, (prof, flags, ntr_ch) in enumerate(plan):
         trace = os.path.join(run.dir, "ledger-%d.ndjson" % ch)
-        st = run.harness(["ledger", "-seed", str(run.seed * 100 + ch), "-traces", str(ntr), "-steps", str(sz["steps"]), "-profile", spec["profile"], "-out", trace] + spec.get("flags", []))
+        st = run.harness(["ledger", "-seed", str(run.seed * 100 + ch), "-traces", str(ntr_ch), "-steps", str(sz["steps"]), "-profile", prof, "-out", trace] + flags)
         viols, done = run.validate(trace, spec["preds"], label="tv%d" % ch)
         if done["lines"] != st["lines"]:
             raise Infra("trace validation consumed %d of %d lines" % (done["lines"], st["lines"]))
